@@ -6,6 +6,7 @@ CONSTANTS
   Nesting = TRUE
   TaskAllow = FALSE
   AtomicLaunch = TRUE
+  ErrFirst = TRUE
   HookKinds = {"none"}
 SPECIFICATION Spec
 INVARIANTS CommandsAfterDependencies StopsAtFailure FinalOK RunOnlyWhileStageRunning UpBeforeUse DownAfterAll OneUpAtATime NothingRunsAtReturn NoDoubleLaunch
